@@ -186,12 +186,13 @@ partial def loop (h : IO.FS.Stream) (out : IO.FS.Stream) : IO Unit := do
   let line ← h.getLine
   if line.isEmpty then return ()
   let toks := (line.trimAscii.toString.splitOn " ").filter (· ≠ "")
-  -- a trailing `w=<lens>` only tells the harness how to split the plaintext over
+  -- a trailing `w=<lens>` / `rd=<sizes>` only tells the harness how to split the plaintext over
   -- Write calls of the streaming entry point; the packets do not depend on it
   -- (Props/C13: any split of the plaintext yields the one-shot plan)
-  let toks := match toks.getLast? with
-    | some t => if t.startsWith "w=" && toks.length > 1 then toks.dropLast else toks
+  let strip (toks : List String) : List String := match toks.getLast? with
+    | some t => if (t.startsWith "w=" || t.startsWith "rd=") && toks.length > 1 then toks.dropLast else toks
     | none => toks
+  let toks := strip (strip toks)
   out.putStrLn (handle toks)
   out.flush
   loop h out
